@@ -23,6 +23,9 @@ def jobs(tier):
     j.append(("plain", ["alpha=S2", "depth=0", "c=3", "maxbytes=%d" % (10 if q else 12), "maxcont=1000"]))
     for c in (1, 2, 3, 5, 64):
         j.append(("plain", ["alpha=S3", "depth=0", "c=%d" % c, "maxbytes=%d" % (10 if q else 12), "maxcont=1000"]))
+    for c in (1, 2, 3, 5, 64):       # declared end moved into / behind the data already written and grown again
+        j.append(("plain", ["alpha=S4", "depth=0", "c=%d" % c, "maxbytes=%d" % (8 if q else 10), "maxcont=1000"]))
+    j.append(("plain-asan", ["alpha=S4", "depth=0", "c=2", "maxbytes=7", "maxcont=1000"]))
     j.append(("plain-asan", ["alpha=S3", "depth=0", "c=2", "maxbytes=8", "maxcont=1000"]))
     j.append(("plain-asan", ["alpha=S2", "depth=0", "c=2", "maxbytes=7", "maxcont=1000"]))
     return j
